@@ -31,7 +31,7 @@ ASSUMPTIONS = [
     "rbind of bool with int/float columns compares values by == (True == 1)",
 ]
 BOUND = {
-    "quick": "E2: BFS depth 3 over the reshaping sub-alphabet from 7 initial frames; rbind: all ordered pairs of the 106-frame family (columns subset of {a,b,c} x 0..2 rows x dtypes a:int/float/bool b:str/<U c:date/datetime) + triples over a 16-frame sub-family; select/unselect/rename/colnames/cbind/update/modify: every argument on 4-column frames of 0,1,3 rows",
+    "quick": "width ladder: frames of 33 and 130 columns (thorough: 600) through select/unselect/rename/colnames/cbind/update/modify/rbind; E2: BFS depth 3 over the reshaping sub-alphabet from 7 initial frames; rbind: all ordered pairs of the 106-frame family (columns subset of {a,b,c} x 0..2 rows x dtypes a:int/float/bool b:str/<U c:date/datetime) + triples over a 16-frame sub-family; select/unselect/rename/colnames/cbind/update/modify: every argument on 4-column frames of 0,1,3 rows",
     "thorough": "E2: BFS depth 4; rbind: all ordered pairs + triples over a 36-frame sub-family; other operations as quick plus 2-row frames and two more dtype layouts",
 }
 TIME_CAP = {"quick": 300, "thorough": 3000}
@@ -109,6 +109,9 @@ def shards(tier):
         for op in dfbfs.menu(M, seen):
             if reshape_op(0, op):
                 out.append({"part": "bfs", "init": init, "prefix": [op], "depth": depth - 1})
+    # width ladder: frames with many columns
+    for ncol in ([33, 130] if tier == "quick" else [33, 130, 600]):
+        out.append({"part": "wide", "ncol": ncol})
     layouts = [0, 1, 4] if tier == "quick" else [0, 1, 2, 3, 4]
     rows = [0, 1, 3] if tier == "quick" else [0, 1, 2, 3]
     for lay in layouts:
@@ -423,8 +426,45 @@ def check_case(case, rec):
     return apply_and_check(case["part"], case["arg"], case["cols"], rec)
 
 
+WIDE_KINDS = ["i8", "str", "f8", "D", "b1", "U", "u1", "us"]
+
+
+def wide_cols(ncol, rows, tag="c", shift=0):
+    cols = []
+    for j in range(ncol):
+        kind = WIDE_KINDS[j % len(WIDE_KINDS)]
+        alpha = V.alphabet(kind, "quick")
+        cols.append([f"{tag}{j:03d}", kind, [alpha[(i + j + shift) % len(alpha)] for i in range(rows)]])
+    return cols
+
+
+def run_wide(ncol, rec):
+    cols = wide_cols(ncol, 2)
+    names = [c[0] for c in cols]
+    apply_and_check("select", list(reversed(names)), cols, rec)
+    apply_and_check("select", names[::3], cols, rec)
+    apply_and_check("unselect", names[: ncol // 2], cols, rec)
+    apply_and_check("unselect", names[1::2], cols, rec)
+    apply_and_check("rename", {names[(j + 1) % ncol]: names[j] for j in range(ncol)}, cols, rec)   # rotate all names
+    apply_and_check("rename", {f"x{j}": names[j] for j in range(0, ncol, 2)}, cols, rec)
+    apply_and_check("colnames", list(reversed(names)), cols, rec)
+    apply_and_check("colnames", [f"y{j}" for j in range(ncol)], cols, rec)
+    apply_and_check("cbind", wide_cols(ncol, 2, tag="p"), cols, rec)
+    apply_and_check("cbind", wide_cols(ncol // 2, 2, tag="c", shift=1) + wide_cols(3, 2, tag="q"), cols, rec)
+    apply_and_check("update", wide_cols(ncol // 2, 2, tag="c", shift=1) + wide_cols(3, 2, tag="q"), cols, rec)
+    apply_and_check("modify", [names[-1], "vector"], cols, rec)
+    apply_and_check("modify", ["-", "swap"], cols, rec)
+    # rbind of wide frames whose columns come in another order, plus columns only one of them has
+    other = list(reversed(wide_cols(ncol, 1, shift=2))) + wide_cols(4, 1, tag="z")
+    check_rbind({"part": "rbind", "frames": [cols, other]}, rec)
+    check_rbind({"part": "rbind", "frames": [other, cols, cols]}, rec)
+
+
 def run_shard(shard, rec):
     part = shard["part"]
+    if part == "wide":
+        run_wide(shard["ncol"], rec)
+        return
     if part == "bfs":
         init, prefix = shard["init"], shard["prefix"]
         if not prefix:
